@@ -1270,4 +1270,238 @@ Section RefineTxn.
       split; [unfold gen_count; reflexivity|]. split; [lia|]. split; reflexivity.
   Qed.
 
+  (* ---------------------------------------------------------------- *)
+  (* Bulk: the loop *)
+
+  (* the loop invariant between the clone catalog and the spec state: the
+     target collection agrees, everything else agrees except possibly the
+     entry of the target namespace *)
+  Definition binv (h : handle) (c : catalog) (g : gen) (s : sstate) : Prop :=
+    ns_ok (g_did g) (cat_ns c) /\ ss_oid s = g_oid g /\
+    coll_or_new s h = abs_coll (ns_or_new c h) /\
+    (forall x, sc_set (abs_ns (cat_ns c)) h x = sc_set (ss_colls s) h x).
+
+  (* the clone is exactly the spec state, and the target namespace exists *)
+  Definition bsync (h : handle) (c : catalog) (s : sstate) : Prop :=
+    abs_ns (cat_ns c) = ss_colls s /\ sc_get (ss_colls s) h <> None.
+
+  Definition bulk_close (c : catalog) (g : gen) (h : handle) (x : wres)
+    : catalog * gen * (tresult + ekind) :=
+    match x with
+    | (w, inl tr) => (close_w c h w, w_gen w, inl tr)
+    | (w, inr e) => (c, gen_after_fail g (w_gen w), inr e)
+    end.
+
+  Lemma user_oplog_neq h : user_ns h = true -> handle_eqb oplog_handle h = false.
+  Proof.
+    intro Hu. destruct (handle_eqb oplog_handle h) eqn:E; auto.
+    apply handle_eqb_eq in E. subst h. discriminate.
+  Qed.
+
+  Lemma ns_or_new_close c h w : user_ns h = true -> ns_or_new (close_w c h w) h = w_ns w.
+  Proof.
+    intro Hu. unfold ns_or_new, close_w. cbn [cat_ns].
+    rewrite (ns_get_set_other _ _ _ _ (user_oplog_neq h Hu)), ns_get_set_same. reflexivity.
+  Qed.
+
+  Lemma coll_or_new_colls s s' h : ss_colls s' = ss_colls s -> coll_or_new s' h = coll_or_new s h.
+  Proof. unfold coll_or_new. intros ->. reflexivity. Qed.
+
+  Lemma bulk_close_sim h c g s ch x y :
+    user_ns h = true -> binv h c g s -> w_out ch c g s h x y ->
+    let '(c1, g1, r) := bulk_close c g h x in
+    let '(s1, r') := y in
+    g_did g <= g_did g1 /\
+    match r, r' with
+    | inl tr, inl sr =>
+        tres_rel tr sr /\ binv h c1 g1 s1 /\
+        (if ch tr then bsync h c1 s1 else ss_colls s1 = ss_colls s) /\
+        (bsync h c s -> bsync h c1 s1)
+    | inr e, inr e' => e = e' /\ c1 = c /\ ss_colls s1 = ss_colls s /\ binv h c g1 s1
+    | _, _ => False
+    end.
+  Proof.
+    intros Hu [Hok [Hoid [Hcn HD]]] H.
+    destruct x as [w [tr|e]], y as [s1 [sr|e']]; unfold w_out in H; cbn [bulk_close];
+      destruct H as [Ho [Hd Hm]]; try contradiction.
+    - destruct Hm as [Htr [Hg Hch]]. split; [exact Hd|]. split; [exact Htr|].
+      pose proof (close_w_abs c h w Hu) as Habs.
+      set (A := abs_ns (cat_ns c)) in *. set (B := ss_colls s) in *.
+      set (X := abs_coll (w_ns w)) in *.
+      assert (Hok1 : ns_ok (g_did (w_gen w)) (cat_ns (close_w c h w))).
+      { apply close_w_ok; [eapply ns_ok_mono; eauto|exact Hg]. }
+      destruct (ch tr).
+      + (* changed *)
+        assert (Heq : abs_ns (cat_ns (close_w c h w)) = ss_colls s1).
+        { rewrite Habs, Hch. apply HD. }
+        assert (Hget : sc_get (ss_colls s1) h = Some X) by (rewrite Hch; apply sc_get_set_same).
+        assert (Hsync : bsync h (close_w c h w) s1).
+        { split; [exact Heq|]. rewrite Hget. discriminate. }
+        split; [|split; [exact Hsync|intros _; exact Hsync]].
+        split; [exact Hok1|]. split; [exact Ho|]. split.
+        * unfold coll_or_new. rewrite Hget. rewrite (ns_or_new_close c h w Hu). reflexivity.
+        * intro x. rewrite Heq. reflexivity.
+      + (* unchanged *)
+        destruct Hch as [Hc1 HX].
+        split; [|split; [exact Hc1|]].
+        * split; [exact Hok1|]. split; [exact Ho|]. split.
+          -- rewrite (coll_or_new_colls s s1 h Hc1), Hcn, (ns_or_new_close c h w Hu). symmetry. exact HX.
+          -- intro x. rewrite Habs, sc_set_set, Hc1. apply HD.
+        * intros [Hs1 Hs2]. split.
+          -- rewrite Habs, Hc1. fold B. fold A in Hs1. rewrite Hs1.
+             apply sc_set_same.
+             destruct (sc_get B h) as [y|] eqn:Ey; [|exfalso; apply Hs2; exact Ey].
+             unfold coll_or_new in Hcn. fold B in Hcn. rewrite Ey in Hcn.
+             f_equal. rewrite Hcn. symmetry. exact HX.
+          -- rewrite Hc1. exact Hs2.
+    - destruct Hm as [-> Hc1]. split; [exact Hd|]. split; [reflexivity|]. split; [reflexivity|].
+      split; [exact Hc1|]. unfold gen_after_fail.
+      split; [eapply ns_ok_mono; eauto|]. split; [exact Ho|]. split.
+      + rewrite (coll_or_new_colls s s1 h Hc1). exact Hcn.
+      + intro x. rewrite Hc1. apply HD.
+  Qed.
+
+  Lemma s_bulk1_core s h op :
+    s_valid h = true -> driver_op op ->
+    s_bulk1 matchf applyf extractf now s h op =
+    match op with
+    | BInsert d => s_ins_core s h d
+    | BReplace f rp sort up => s_repl_core s h f rp sort up
+    | BUpdate f u sort up sk li afs => s_upd_core s h f u sort sk li up afs
+    | BDelete f sort sk li => s_del_core s h f sort sk li
+    end.
+  Proof.
+    intros Hv Hd. destruct op; cbn [driver_op s_bulk1] in *.
+    - reflexivity.
+    - subst sort. rewrite s_replace_or_upsert_eq, Hv. cbn [negb].
+      destruct (sc_get (ss_colls s) h) eqn:E; [reflexivity|].
+      destruct upsert; [reflexivity|]. unfold s_repl_core, coll_or_new. rewrite E. reflexivity.
+    - destruct Hd as [-> ->]. rewrite s_update_or_upsert_eq, Hv. cbn [negb].
+      destruct (sc_get (ss_colls s) h) eqn:E; [reflexivity|].
+      destruct upsert; [reflexivity|]. unfold s_upd_core, coll_or_new. rewrite E. reflexivity.
+    - destruct Hd as [-> ->]. unfold s_delete_call, s_del_core, coll_or_new. rewrite Hv. cbn [negb].
+      destruct (sc_get (ss_colls s) h); reflexivity.
+  Qed.
+
+  Lemma binv_wrel h c g s : user_ns h = true -> binv h c g s -> wrel c g s h.
+  Proof.
+    intros Hu [Hok [Hoid [Hcn _]]]. split; [exact Hcn|]. split; [exact Hoid|].
+    apply ns_or_new_good; auto.
+  Qed.
+
+  Lemma bulk1_sim h c g s op :
+    user_ns h = true -> s_valid h = true -> binv h c g s -> driver_op op ->
+    let '(c1, g1, r) := bulk1 matchf applyf extractf c g h op now in
+    let '(s1, r') := s_bulk1 matchf applyf extractf now s h op in
+    g_did g <= g_did g1 /\
+    match r, r' with
+    | inl tr, inl sr =>
+        tres_rel tr sr /\ binv h c1 g1 s1 /\
+        (if chg op tr then bsync h c1 s1 else ss_colls s1 = ss_colls s) /\
+        (bsync h c s -> bsync h c1 s1)
+    | inr e, inr e' => e = e' /\ c1 = c /\ ss_colls s1 = ss_colls s /\ binv h c g1 s1
+    | _, _ => False
+    end.
+  Proof.
+    intros Hu Hv Hb Hd. rewrite (s_bulk1_core s h op Hv Hd).
+    pose proof (binv_wrel h c g s Hu Hb) as Hw.
+    destruct op.
+    - exact (bulk_close_sim h c g s _ _ _ Hu Hb (ins_wsim c g s h d Hw)).
+    - exact (bulk_close_sim h c g s _ _ _ Hu Hb (repl_wsim c g s h filter repl sort upsert Hw)).
+    - exact (bulk_close_sim h c g s _ _ _ Hu Hb
+               (upd_wsim c g s h filter update sort skip limit upsert afs Hw)).
+    - exact (bulk_close_sim h c g s _ _ _ Hu Hb (del_wsim c g s h filter sort skip limit Hw)).
+  Qed.
+
+  Lemma bulk_changes_nonneg op tr : 0 <= bulk_changes op tr.
+  Proof.
+    unfold bulk_changes. pose proof (len_nonneg (t_modified tr)).
+    destruct (t_upserted tr); [lia|]. destruct op; pose proof (len_nonneg (t_matched tr)); lia.
+  Qed.
+
+  Lemma bsync_colls h c s s' : ss_colls s' = ss_colls s -> bsync h c s -> bsync h c s'.
+  Proof. unfold bsync. intros ->. auto. Qed.
+
+  Lemma bulk_seq_sim h ordered ops : forall c g s,
+    user_ns h = true -> s_valid h = true -> binv h c g s -> Forall driver_op ops ->
+    let '(c2, g2, rs, n) := bulk_seq matchf applyf extractf c g h ops ordered now in
+    let '(s2, rs') := s_bulk matchf applyf extractf now s h ops ordered in
+    binv h c2 g2 s2 /\ g_did g <= g_did g2 /\ Forall2 (sum_rel tres_rel) rs rs' /\ 0 <= n /\
+    (n = 0 -> ss_colls s2 = ss_colls s) /\ (0 < n -> bsync h c2 s2) /\
+    (bsync h c s -> bsync h c2 s2).
+  Proof.
+    induction ops as [|op t IH]; intros c g s Hu Hv Hb Hall.
+    - cbn [bulk_seq s_bulk]. split; [exact Hb|]. split; [lia|]. split; [constructor|].
+      split; [lia|]. split; [reflexivity|]. split; [lia|auto].
+    - inversion Hall as [|? ? Hop Ht]; subst. cbn [bulk_seq s_bulk].
+      pose proof (bulk1_sim h c g s op Hu Hv Hb Hop) as H1.
+      destruct (bulk1 matchf applyf extractf c g h op now) as [[c1 g1] [tr|e]];
+        destruct (s_bulk1 matchf applyf extractf now s h op) as [s1 [sr|e']];
+        destruct H1 as [Hd1 H1]; try contradiction.
+      + destruct H1 as [Htr [Hb1 [Hch Hsy]]].
+        specialize (IH c1 g1 s1 Hu Hv Hb1 Ht).
+        destruct (bulk_seq matchf applyf extractf c1 g1 h t ordered now) as [[[c2 g2] rs] n].
+        destruct (s_bulk matchf applyf extractf now s1 h t ordered) as [s2 rs'].
+        destruct IH as [I1 [I2 [I3 [I4 [I5 [I6 I7]]]]]].
+        pose proof (bulk_changes_nonneg op tr) as Hnn.
+        split; [exact I1|]. split; [lia|]. split; [constructor; [exact Htr|exact I3]|].
+        split; [lia|]. unfold chg in Hch.
+        split; [|split].
+        * intro Hz. assert (Hz1 : bulk_changes op tr = 0) by lia. assert (Hz2 : n = 0) by lia.
+          rewrite Hz1 in Hch. change (0 <? 0) with false in Hch. cbv iota in Hch.
+          rewrite (I5 Hz2). exact Hch.
+        * intro Hp. destruct (0 <? bulk_changes op tr) eqn:E.
+          -- apply I7. exact Hch.
+          -- apply Z.ltb_ge in E. apply I6. lia.
+        * intro Hs. apply I7. apply Hsy. exact Hs.
+      + destruct H1 as [-> [-> [Hc1 Hb1]]]. destruct ordered.
+        * split; [exact Hb1|]. split; [exact Hd1|]. split; [constructor; [reflexivity|constructor]|].
+          split; [lia|]. split; [intros _; exact Hc1|]. split; [lia|].
+          apply bsync_colls. exact Hc1.
+        * specialize (IH c g1 s1 Hu Hv Hb1 Ht).
+          destruct (bulk_seq matchf applyf extractf c g1 h t false now) as [[[c2 g2] rs] n].
+          destruct (s_bulk matchf applyf extractf now s1 h t false) as [s2 rs'].
+          destruct IH as [I1 [I2 [I3 [I4 [I5 [I6 I7]]]]]].
+          split; [exact I1|]. split; [lia|]. split; [constructor; [reflexivity|exact I3]|].
+          split; [exact I4|]. split; [intro Hz; rewrite (I5 Hz); exact Hc1|]. split; [exact I6|].
+          intro Hs. apply I7. apply (bsync_colls h c s s1 Hc1 Hs).
+  Qed.
+
+  Lemma binv_init h c g : user_ns h = true -> ns_ok (g_did g) (cat_ns c) -> binv h c g (abs_cat c g).
+  Proof.
+    intros Hu Hok. split; [exact Hok|]. split; [reflexivity|]. split.
+    - apply coll_or_new_abs. exact Hu.
+    - intro x. reflexivity.
+  Qed.
+
+  Theorem txn_bulk_refines c g h ops ordered :
+    ns_ok (g_did g) (cat_ns c) -> Forall driver_op ops ->
+    let '(c', g', r) := txn_bulk matchf applyf extractf c g h ops ordered now in
+    if s_valid h then
+      let '(s', rs') := s_bulk matchf applyf extractf now (abs_cat c g) h ops ordered in
+      abs_ns (cat_ns c') = ss_colls s' /\ g_oid g' = ss_oid s' /\
+      ns_ok (g_did g') (cat_ns c') /\ g_did g <= g_did g' /\
+      exists rs, r = inl rs /\ Forall2 (sum_rel tres_rel) rs rs'
+    else c' = c /\ g' = g /\ r = inr EErr.
+  Proof.
+    intros Hok Hall. destruct (guard_write h) as [e|] eqn:Hg.
+    - destruct (guard_some h e Hg) as [-> Hv]. rewrite Hv.
+      unfold txn_bulk. rewrite Hg. auto.
+    - pose proof (proj1 (guard_valid h) Hg) as Hv. rewrite Hv.
+      pose proof (valid_user h Hv) as Hu.
+      pose proof (txn_bulk_is_bulk_seq matchf applyf extractf c g h ops ordered now Hg) as Hseq.
+      pose proof (bulk_seq_sim h ordered ops c g (abs_cat c g) Hu Hv (binv_init h c g Hu Hok) Hall) as Hsim.
+      destruct (bulk_seq matchf applyf extractf c g h ops ordered now) as [[[c2 g2] rs] n].
+      rewrite Hseq.
+      destruct (s_bulk matchf applyf extractf now (abs_cat c g) h ops ordered) as [s2 rs'].
+      destruct Hsim as [[Hok2 [Ho2 _]] [I2 [I3 [I4 [I5 [I6 _]]]]]].
+      destruct (0 <? n) eqn:E.
+      + apply Z.ltb_lt in E. destruct (I6 E) as [Hs _].
+        split; [exact Hs|]. split; [symmetry; exact Ho2|]. split; [exact Hok2|]. split; [exact I2|].
+        eauto.
+      + apply Z.ltb_ge in E. assert (Hz : n = 0) by lia.
+        split; [rewrite (I5 Hz); reflexivity|]. split; [symmetry; exact Ho2|].
+        split; [eapply ns_ok_mono; eauto|]. split; [exact I2|]. eauto.
+  Qed.
+
 End RefineTxn.
